@@ -335,6 +335,7 @@ P_CREATE = P("create_durable", "store::create fsyncs the directory after the las
              "file they create / size before Ok", P_BOUNDS, assumes=[ASSUME_P])
 P_FSYNCER = P("fsyncer_order", "io::fsyncer::worker: request observed -> fsync -> Done in every round; recover passes do_sync = true to truncate_wal; "
               "truncate_wal honours do_sync", P_BOUNDS, assumes=[ASSUME_P])
+P_SEGLOG_OPEN = P("seglog_open_cleanup", "seglog::open: the directory is listed and segments outside the live range are removed on every path to Ok", P_BOUNDS, assumes=[ASSUME_P])
 P_DIR_LOCK = P("dir_lock_first", "store::create / Store::open: Flock::lock returned Ok before any database file is created, opened, read or "
                "written, before the I/O pool starts, and on every Ok return", P_BOUNDS, assumes=[ASSUME_P])
 P_FLOCK_RESULT = P("flock_result", "Flock::lock: Ok(Flock) only on the success arm of try_lock_exclusive; no fallible value dropped", P_BOUNDS, assumes=[ASSUME_P])
@@ -467,7 +468,7 @@ PROPERTIES = {
             "outside": ["multi-commit histories through threads and files", "staged/secondary lookup shadowing, leaf/branch stages, "
                         "bulk split, branch updater, overflow page I/O", "LeafNode::get (binary search at symbolic offsets into a 4096-byte "
                         "page exhausts CBMC's propositional reduction: measured OOM at 24 GB) - see DESIGN.md"]},
-    "C03": {"level": "model_checking", "obligations": [P_SYNC_ORDER, P_RECOVER_ORDER, P_PRE_META, P_OPEN_ORDER, P_OPEN_SWALLOW],
+    "C03": {"level": "model_checking", "obligations": [P_SEGLOG_OPEN, P_SYNC_ORDER, P_RECOVER_ORDER, P_PRE_META, P_OPEN_ORDER, P_OPEN_SWALLOW],
             "explanation": "Protocol order: bounded model checking (z3) of the MIR control/event structure of the commit and recovery "
                            "orchestration - the order in which durable effects are issued relative to the single switch-over (Meta::write).",
             "outside": ["that the bytes reachable from the old/new meta decode to the old/new state", "beatree / rollback controllers' "
